@@ -550,6 +550,7 @@ Plan generate(const std::string& mode, uint64_t seed, uint64_t run) {
   g.allowRaw = !mp;
   g.allowBin = mp;
   g.binEdges = mp;
+  g.extremeDoubles = mp;
   g.allowLinked = true;
   g.allowNulInStr = true;
   g.allowNulInKey = true;
